@@ -162,7 +162,12 @@ def judge_c02(model, L, out, res):
     if L['dir'] != d:
         res['fails'].append({'ob': 'direction', 'cause': 'direction-changed', 'point': None})
         return
-    m = sem.Q(obj_margin(model, L))
+    # float-noise margin: a constant part plus a part proportional to the size of each objective term (a coefficient
+    # such as 1/3 is off by one ulp, which on an unbounded variable is an unbounded absolute error)
+    def _abs(t):
+        return z3.If(t >= 0, t, -t)
+    scaled = [sem.Q(EPS * abs(Fraction(float(c)))) * _abs(env[n]) for n, c in zip(lin.names(L), L['obj']) if lin.finite(float(c)) and float(c) != 0]
+    m = sem.Q(obj_margin(model, L)) + (z3.Sum(scaled) if scaled else z3.RealVal(0))
     better = (g < f - m) if d == 'min' else (g > f + m)
     v, pt = ask(res, 'nobetter', [S, Ln, better], allv)
     if v == 'sat':
@@ -504,6 +509,10 @@ def replay_fail(model, fail):
             return False, {'why': 'pinned model has no extension (that is C01 completeness)', 'pin': pin}
         best = Fraction(float(pin['value']))
         m = obj_margin(model, L)
+        # the part of the margin proportional to the objective terms (same as in the query; the auxiliary terms are
+        # bounded through the reported value)
+        cmap = dict(zip(lin.names(L), L['obj']))
+        m += EPS * (sum(abs(Fraction(float(cmap[n]))) * abs(Fraction(x[n])) for n in x if n in cmap and lin.finite(float(cmap[n]))) + abs(best) + abs(fval))
         if ob == 'nobetter':
             conf = (best < fval - m) if d == 'min' else (best > fval + m)
         else:
